@@ -1,7 +1,24 @@
 (* C05 property theorems: statements only, each closed by [exact].
-   Same model and reading guide as Props/C04.v. *)
+   Same model and reading guide as Props/C04.v.  [run_save ... None sched]: no crash
+   point, any schedule [sched] of injected OS errors (any number, at any primitives)
+   and of another process creating the destination.
+
+   Vocabulary (Proofs/C05_Inv.v, Proofs/C04_Inv.v):
+   - [dest_old c s0 sched s]: the destination is bound in [s] exactly as at entry and its inode
+     (bytes, durable bytes, permission bits) is untouched -- or it was absent at entry and holds
+     exactly what a scheduled AAppear put there;
+   - [olds_same s0 s]: no inode that existed at entry has been modified (stale part file,
+     bystanders, old destination);
+   - [OpenFact c s0]: overwrite_part is set or no part file existed at entry;
+   - [perms_ok_prop c s0 sched umask m]: m is the explicitly requested mode, else the mode of the
+     destination at entry, else 0o666 & ~umask (or the mode of a destination that appeared meanwhile);
+   - [FailCase c s0 s tr]: how a failed save leaves the part file: (1) refused at entry, nothing
+     touched; (2) the removal of the stale part file itself failed; (3) no part file;
+     (4) a stale part file kept untouched because overwrite_part is off; (5) we had created the
+     part file, and rm_part_on_exc is off, or it is gone, or an unlink of it failed;
+   - [link_then_unlink_failed tr]: guard of the open finding C05-link-unlink (= Check known5). *)
 From Boltons Require Import Lib.Prelude Model.C04_Model Spec.C04_Spec Check.C04_Check Spec.C05_Spec Check.C05_Check
-     Proofs.C05_Basic.
+     Proofs.C04_Inv Proofs.C05_Basic Proofs.C05_Inv.
 Open Scope N_scope.
 
 (* overwrite=False and the destination exists at entry: the caller gets EEXIST before any primitive
@@ -14,11 +31,10 @@ Theorem C05_refuse :
 Proof. exact refuse_lemma. Qed.
 Print Assumptions C05_refuse.
 
-(* FULL STATEMENT (C05_fault), refuted as it stands by the recorded open finding C05-link-unlink:
-     forall c ops raises s0 umask sched e w, run_save c ops raises s0 umask None sched = (Exc e, w) ->
-       destination content and mode in w = those in s0 (or what another process put there) /\ ...
-   Witness: overwrite=False, destination absent, the unlink that follows the successful link fails:
-   the caller gets OSError(EIO) although the destination now holds the new content. *)
+(* FULL STATEMENT (C05_fault): as C05_fault_partial below without the hypothesis
+   [link_then_unlink_failed (w_trace w) = false].  It is refuted by the recorded open finding
+   C05-link-unlink: overwrite=False, destination absent, the unlink that follows the successful
+   link fails: the caller gets OSError(EIO) although the destination now holds the new content. *)
 Theorem C05_fault_refuted :
   let r := run_save refuted_cfg refuted_body false (fs_of_list []) 18 None refuted_sched in
   fst r = Exc (OSErr 5%nat) /\
@@ -27,3 +43,53 @@ Theorem C05_fault_refuted :
   link_then_unlink_failed (w_trace (snd r)) = true.
 Proof. exact fault_refuted_lemma. Qed.
 Print Assumptions C05_fault_refuted.
+
+(* Every run without a crash point, under ANY fault schedule, any configuration, any initial
+   directory, any body: it never "hangs in the middle" (the outcome is a value or an exception);
+   a normal return means the complete new content is at the destination (kernel and disk), with the
+   right permission bits, and no part file; an exception means no pre-existing inode was modified,
+   the part file is accounted for by one of the five FailCases, and -- outside the guard of the open
+   finding -- the destination is exactly as it was (binding, bytes, permission bits). *)
+Theorem C05_fault_partial :
+  forall c ops raises s0 umask sched o w,
+    c_dest c <> c_part c -> same_dir (c_part c) = true -> wf s0 ->
+    run_save c ops raises s0 umask None sched = (o, w) ->
+    match o with
+    | Crashed => False
+    | Val _ =>
+        content_kill (w_fs w) (c_dest c) = Some (new_content ops) /\
+        content_power (w_fs w) (c_dest c) = Some (new_content ops) /\
+        f_dir (w_fs w) (c_part c) = None /\
+        (exists m, mode_of (w_fs w) (c_dest c) = Some m /\ perms_ok_prop c s0 sched umask m) /\
+        OpenFact c s0 /\ olds_same s0 (w_fs w)
+    | Exc _ =>
+        olds_same s0 (w_fs w) /\
+        FailCase c s0 (w_fs w) (w_trace w) /\
+        (link_then_unlink_failed (w_trace w) = false -> dest_old c s0 sched (w_fs w))
+    end.
+Proof. exact fault_partial_lemma. Qed.
+Print Assumptions C05_fault_partial.
+
+(* with rm_part_on_exc, after a failure no part file is left behind -- unless removing it is what
+   failed, or it is a stale one we were not allowed to touch (overwrite_part off, or refusal) *)
+Theorem C05_cleanup :
+  forall c ops raises s0 umask sched e w,
+    c_dest c <> c_part c -> same_dir (c_part c) = true -> wf s0 ->
+    run_save c ops raises s0 umask None sched = (Exc e, w) ->
+    c_rm_part_on_exc c = true -> unlink_failed (c_part c) (w_trace w) = false ->
+    f_dir (w_fs w) (c_part c) = None \/
+    (f_dir (w_fs w) (c_part c) = f_dir s0 (c_part c) /\ f_dir s0 (c_part c) <> None /\
+     (c_overwrite_part c = false \/ (c_overwrite c = false /\ f_dir s0 (c_dest c) <> None))).
+Proof. exact cleanup_lemma. Qed.
+Print Assumptions C05_cleanup.
+
+(* A pre-existing part file is never reused or overwritten unless overwrite_part is set:
+   the save fails and the file (name and inode content) is as before. *)
+Theorem C05_part_reuse :
+  forall c ops raises s0 umask sched o w j,
+    c_dest c <> c_part c -> same_dir (c_part c) = true -> wf s0 ->
+    run_save c ops raises s0 umask None sched = (o, w) ->
+    f_dir s0 (c_part c) = Some j -> c_overwrite_part c = false ->
+    (exists e, o = Exc e) /\ f_dir (w_fs w) (c_part c) = Some j /\ f_ino (w_fs w) j = f_ino s0 j.
+Proof. exact part_reuse_lemma. Qed.
+Print Assumptions C05_part_reuse.
